@@ -39,6 +39,9 @@ Definition wr_at (f : list Z) (off : Z) (b : list Z) : list Z :=
   let f' := f ++ zeros (off - len f) in
   takeZ off f' ++ b ++ dropZ (off + len b) f'.
 
+(** byte [i] of a string, 0 outside it (so zero-fill never needs to be spelled out) *)
+Definition getZ (l : list Z) (i : Z) : Z := if i <? 0 then 0 else nth (Z.to_nat i) l 0.
+
 (** Go's uint64 / int64 views of an integer *)
 Definition two64 : Z := 18446744073709551616.
 Definition two63 : Z := 9223372036854775808.
@@ -109,6 +112,24 @@ Fixpoint spec_run (a : fs) (ops : list op) : fs * list ob :=
   end.
 
 Definition spec_init (c : list Z) : fs := {| f_content := c; f_pos := 0 |}.
+
+(** the arguments are int64 values and no position or size of the byte-array file leaves
+    the int64 range during the history (what Go's types enforce) *)
+Definition int64_arg (z : Z) : Prop := - two63 <= z < two63.
+Definition op_args (o : op) : Prop :=
+  match o with
+  | OWriteAt _ off => int64_arg off
+  | OSeek off _ => int64_arg off
+  | ORead n => int64_arg n
+  | OTruncate sz => int64_arg sz
+  | _ => True
+  end.
+Definition fits (a : fs) : Prop := f_pos a < two63 /\ len (f_content a) < two63.
+Fixpoint spec_fits (a : fs) (ops : list op) : Prop :=
+  match ops with
+  | [] => True
+  | o :: r => op_args o /\ fits (fst (spec_step a o)) /\ spec_fits (fst (spec_step a o)) r
+  end.
 
 (** ---------- the mechanism ---------- *)
 Record flags := { f_overlap : bool; f_curoff : bool; f_seekend : bool;
@@ -316,7 +337,7 @@ Fixpoint obs_match (ops : list op) (l1 l2 : list ob) : bool :=
     [gen seed i] (never 0, so zero-fill is distinguishable) and writes every byte
     string -- inputs and observed outputs alike -- as a list of segments; [ex]
     expands it to the literal bytes.  (Pure encoding: [SLit] can express any string.) *)
-Definition gen (seed i : Z) : Z := 1 + ((seed * 131 + i * 7 + (i / 255) * 3) mod 255).
+Definition gen (seed i : Z) : Z := 1 + ((i * i * 7 + i * (2 * seed + 3) + seed * 101) mod 251).
 Inductive seg := SGen (seed off cnt : Z) | SZero (cnt : Z) | SLit (l : list Z).
 Fixpoint gen_run (seed off : Z) (cnt : nat) : list Z :=
   match cnt with O => [] | S k => gen seed off :: gen_run seed (off + 1) k end.
